@@ -284,7 +284,7 @@ Proof. induction l1 as [|x l IH]; cbn; [reflexivity|]. now rewrite IH, andb_asso
 
 Lemma toks_printable e : facets_ok e = true -> forall lvl, forallb tok_printable (toks lvl e) = true.
 Proof.
-  induction e as [z sub|a IHa b IHb|a IHa b IHb|e IHe|n]; cbn [facets_ok]; intros H lvl; cbn [toks].
+  induction e as [z sub|a IHa b IHb|a IHa b IHb|e IHe|n|p IHp]; cbn [facets_ok]; intros H lvl; cbn [toks].
   - cbn. destruct sub; [now rewrite H|reflexivity].
   - apply andb_prop in H. destruct H as [Ha Hb]. unfold paren.
     destruct (Nat.ltb 1 lvl); cbn [forallb tok_printable]; rewrite ?forallb_app, ?forallb_app, IHa, IHb by assumption; reflexivity.
@@ -293,4 +293,5 @@ Proof.
       rewrite ?forallb_app; cbn [forallb tok_printable]; rewrite IHa, IHb by assumption; reflexivity.
   - cbn [forallb tok_printable]. rewrite forallb_app, IHe by assumption. reflexivity.
   - reflexivity.
+  - cbn [forallb tok_printable]. rewrite forallb_app, IHp by assumption. reflexivity.
 Qed.
